@@ -71,6 +71,10 @@ def compare(ref, other, name, fam, res, extra, variant_series=None):
                     d["example"] = dict(family=fam, variant=name, rows_ref=len(a), rows_variant=len(b),
                                         rows_only_in_one=[str(x) for x in list(extra_rows)[:4]], **extra)
                 return
+    if fam == "billing" and name == "absent" and len(common):
+        # without any meter data the reporting span is the weather span; with reads it is the read calendar: the ROWS differ by
+        # construction (which days are reported), the VALUES on the common days must not
+        a, b = a.loc[common], b.loc[common]
     if len(common) != len(a.index) or len(common) != len(b.index):
         res["oracle_failures"].append(dict(clause="prediction_rows_depend_on_observed", family=fam, variant=name, rows_ref=len(a), rows_variant=len(b), **extra))
         return
